@@ -471,3 +471,118 @@ def c01_writer_side(tier):
            "streams_with_failed_verdict": res["stats"]["failed"],
            "mc_configs": res["mcs"]}
     return viols, cov
+
+
+# ---------------------------------------------------------------------------
+# C14 (reporters)
+# ---------------------------------------------------------------------------
+
+# (universe, HasBefore, HasAfter, NotFoundToo, MaxErr, Truncate, num, opts)
+C14_GEN = {
+    "quick": [("US1", "TRUE", "TRUE", "FALSE", 1, "FALSE", 120, {"verbose": 0, "show_output": False, "report_time": False}),
+              ("US2", "TRUE", "FALSE", "TRUE", 1, "FALSE", 120, {"verbose": 0, "show_output": True, "report_time": True}),
+              ("US3", "FALSE", "TRUE", "FALSE", 0, "TRUE", 100, {"verbose": 1, "show_output": False, "report_time": False}),
+              ("US1np", "TRUE", "TRUE", "FALSE", 1, "FALSE", 60, {"verbose": 0, "show_output": False, "report_time": False})],
+    "thorough": [("US1", "TRUE", "TRUE", "FALSE", 1, "FALSE", 1500, {"verbose": 0, "show_output": False, "report_time": False}),
+                 ("US1", "TRUE", "TRUE", "TRUE", 1, "TRUE", 1000, {"verbose": 1, "show_output": True, "report_time": True}),
+                 ("US2", "TRUE", "TRUE", "TRUE", 1, "FALSE", 1500, {"verbose": 0, "show_output": True, "report_time": False}),
+                 ("US3", "TRUE", "TRUE", "FALSE", 1, "TRUE", 1500, {"verbose": 2, "show_output": False, "report_time": True}),
+                 ("US1np", "TRUE", "TRUE", "FALSE", 1, "FALSE", 600, {"verbose": 0, "show_output": False, "report_time": False}),
+                 ("US2np", "FALSE", "TRUE", "TRUE", 1, "FALSE", 600, {"verbose": 0, "show_output": True, "report_time": False})],
+}
+
+
+def check_c14(tier):
+    import report_parsers
+    t0 = time.time()
+    streams = []
+    gens = []
+    states = 0
+    for n, c in enumerate(C14_GEN[tier]):
+        cfg = os.path.join(WORK, f"Gen_Reporters_{n}.cfg")
+        _cfg(cfg, "Spec", _sum_consts(c[0], c[1], c[2], c[3], c[4], c[5], "FALSE"), invs=("Dump",))
+        r = tlc("Gen_Summarize.tla", cfg, workers=1,
+                simulate={"num": c[6], "depth": 300, "seed": seed() * 1000 + 140 + n},
+                timeout=1800, tag=f"genrep{n}")
+        require_ok(r, f"Gen_Summarize (reporters) {c[0]}")
+        got = tlc_lines(r["out"], "REPLAY")
+        for k, g in enumerate(got):
+            g["id"] = f"{c[0]}.{n}.{k}"
+            g["opts"] = c[7]
+        gens.append({"universe": c[0], "consts": list(c[1:6]), "opts": c[7], "behaviours": len(got),
+                     "wall_s": r["wall_s"]})
+        states += r.get("states", 0)
+        streams.extend(got)
+    by_uni = {}
+    for s in streams:
+        by_uni.setdefault(json.dumps(s["universe"], sort_keys=True), []).append(s)
+    verdicts = {}
+    recs_all = {}
+    for k, (_, group) in enumerate(sorted(by_uni.items())):
+        inp = os.path.join(WORK, f"rep_in_{k}.ndjson")
+        outp = os.path.join(WORK, f"rep_out_{k}.ndjson")
+        parsed = os.path.join(WORK, f"rep_parsed_{k}.ndjson")
+        write_ndjson(inp, group)
+        run_harness(["replay-reporters", inp, outp])
+        recs = read_ndjson(outp)
+        tables = report_parsers.step_tables(group[0]["universe"])
+        out = []
+        for rec in recs:
+            facts, info = {}, {}
+            for name, fn in report_parsers.PARSERS.items():
+                try:
+                    facts[name], info[name] = fn(rec["outputs"].get(name, ""), tables)
+                except Exception as e:  # a parser crash is a malformed document
+                    facts[name], info[name] = [], {"wellformed": False, "error": str(e)}
+            for name in report_parsers.PARSERS:
+                info[name].setdefault("wellformed", True)
+            info["junit"].setdefault("status_mismatch", 0)
+            lt = info["libtest"]
+            for key, dflt in (("unpaired", 0), ("n_ok", 0), ("n_failed", 0), ("n_ignored", 0),
+                              ("suite_started", 0), ("suite_result", 0)):
+                lt.setdefault(key, dflt)
+            if not lt.get("suite"):
+                lt["suite"] = {"event": "", "passed": -1, "failed": -1, "ignored": -1}
+            panics = {n: rec["panics"].get(n, "") for n in report_parsers.PARSERS}
+            out.append({"id": rec["id"], "universe": rec["universe"], "stream": rec["stream"],
+                        "facts": facts, "info": info, "panics": panics})
+            recs_all[rec["id"]] = rec
+        write_ndjson(parsed, out)
+        r = tlc("Trace_Reporters.tla", os.path.join(SPEC, "Trace_U.cfg"), workers=1,
+                env={"TRACE": parsed}, timeout=3000, tag=f"trrep{k}", xss=True, heap="6g")
+        require_ok(r, "Trace_Reporters")
+        vs = tlc_lines(r["out"], "VERDICT")
+        if len(vs) != len(out):
+            raise ToolError(f"Trace_Reporters judged {len(vs)} of {len(out)} streams")
+        for v in vs:
+            verdicts[v["id"]] = v
+    violations = []
+    for vid, v in verdicts.items():
+        for b in v["bad"]:
+            rec = recs_all[vid]
+            nopath = not rec["universe"][0].get("path", True)
+            sig = f"C14:{b[0]}:{b[1]}" + (":pathless" if nopath else "")
+            violations.append({"sig": sig, "what": f"{b[0]}: {b[1]} (stream {vid})",
+                               "replay": {"property": "C14", "reporter": b[0], "rule": b[1],
+                                          "detail": v["detail"],
+                                          "record": {"universe": rec["universe"], "stream": rec["stream"],
+                                                     "opts": rec["opts"], "output": rec["outputs"].get(b[0], "")[:4000]}}})
+    nontrivial = sum(1 for s in streams if any(e["k"] in ("StepF", "HookF", "StepSk") for e in s["stream"]))
+    sample = recs_all[streams[len(streams) // 2]["id"]]
+    cov = {
+        "states": states, "transitions": states, "generators": gens,
+        "checker_cmd": "tlc -simulate Gen_Summarize.tla ; harness replay-reporters ; lib/report_parsers.py ; "
+                       "tlc -workers 1 Trace_Reporters.tla",
+        "traces_validated_against_impl": len(verdicts), "reports_parsed": 4 * len(verdicts),
+        "evaluations": len(verdicts), "distinct_nontrivial": nontrivial,
+        "rule": "sequential streams sampled by TLC from SeqGen.tla over 3 universes (plus path-less variants) and "
+                "reporter option sets; non-trivial if the stream has a failed / skipped step or failed hook",
+        "samples": [{"stream": [_short(e) for e in sample["stream"]],
+                     "libtest_output": sample["outputs"]["libtest"][:1500]}],
+    }
+    return {"level": "model_checking", "coverage": cov, "violations": violations,
+            "assumptions": ["the reports are parsed back by independent parsers (python json, xml.etree, a line grammar)",
+                            "facts carry no attempt number (Cucumber JSON merges the attempts of a scenario): bag semantics",
+                            "names are plain tokens in this round (escaping of markup / quotes / non-ASCII not yet exercised)",
+                            "streams without replayed events after run-Finished"],
+            "wall_s": time.time() - t0}
